@@ -10,8 +10,16 @@
         against ONE shared jumpdest cache; vj = validJumpdest(p), p = 0 .. len(code)-1
    case (2 which flag pos x<bits>) -> (x<bits'>) | ()   one setter on a given vector
         which = 1: set1, 0: setN(flag), 8: set8, 16: set16
-   case (3 x<code> x<bits>)  -> (x<bits'>) | ()   codeBitmapInternal on a given vector *)
-From GV Require Import Lib.Sx EVM.Jumpdest.
+   case (3 x<code> x<bits>)  -> (x<bits'>) | ()   codeBitmapInternal on a given vector
+   case (4 prague cachekind (op ...)) -> ( (outcome frame) ... )   one entry per call/create
+        op = (0 addr x<code> hash)   StateDB.SetCode(addr, code); hash = the code hash the state stores
+             (1 kind addr)           kind 0 Call, 1 CallCode, 2 DelegateCall, 3 StaticCall
+             (2 x<initcode>)         Create / Create2
+        all frames share ONE jumpdest cache (cachekind selects the Go implementation only);
+        outcome 0 = no error, 1 = ErrInvalidJump, 2 = panic, 3 = stack underflow, 4 = other
+        error, 5 = out of fuel/gas; frame = (hash) the CodeHash of the frame that executed
+        code, () if no code was executed *)
+From GV Require Import Lib.Sx EVM.Jumpdest EVM.JumpdestCalls.
 Local Open Scope N_scope.
 
 Definition res_code (r : result bool) : N :=
@@ -52,6 +60,28 @@ Definition dec_contract (s : sx) : option (list N * N) :=
   | _ => None
   end.
 
+Definition outcome_code (o : outcome) : N :=
+  match o with
+  | OStop => 0 | OInvalidJump => 1 | OPanic => 2 | OUnderflow => 3 | OOther => 4 | OFuel => 5
+  end.
+
+Definition dec_op (s : sx) : option evm_op :=
+  match s with
+  | SL [SI 0%Z; a; SB code; h] =>
+      match sx_N a, sx_N h with Some a', Some h' => Some (OpSetCode a' code h') | _, _ => None end
+  | SL [SI 1%Z; k; a] =>
+      match sx_N k, sx_N a with Some k', Some a' => Some (OpCall k' a') | _, _ => None end
+  | SL [SI 2%Z; SB ic] => Some (OpCreate ic)
+  | _ => None
+  end.
+
+Definition enc_call (r : outcome * option (list N * hash)) : sx :=
+  SL [sn (outcome_code (fst r));
+      match snd r with
+      | Some (_ :: _, h) => SL [sn h]
+      | _ => SL []
+      end].
+
 Definition C30_run (c : sx) : sx :=
   match c with
   | SL [SI 0%Z; SB code; ds] =>
@@ -85,5 +115,10 @@ Definition C30_run (c : sx) : sx :=
       | _, _ => SErr 3
       end
   | SL [SI 3%Z; SB code; SB bits] => ob_bits (codeBitmapInternal code bits)
+  | SL [SI 4%Z; pr; _; SL ops] =>
+      match sx_bool pr, opt_map dec_op ops with
+      | Some prague, Some l => SL (map enc_call (run_ops prague state_empty cache_empty l))
+      | _, _ => SErr 4
+      end
   | _ => SErr 0
   end.
